@@ -136,6 +136,11 @@ pub trait ClientBaseStorage {
     spec fn stored(&self) -> Map<Seq<u8>, VaultV>;
     /// traits.rs:86: Err(NotAuthenticated) unless a user is signed in
     fn guard_authenticated(&self, _t: Internal) -> (r: ClResult<()>);
+    /// traits.rs:62
+    fn account_id(&self) -> (r: &AccountId);
+    /// traits.rs:68: the signed-in identity is a field of its own
+    fn authenticated_user_mut(&mut self) -> (r: Option<&mut Identity>)
+        ensures final(self).fmap() == old(self).fmap(), final(self).idx() == old(self).idx(), final(self).summ() == old(self).summ(), final(self).stored() == old(self).stored();
 }
 pub trait ClientFolderStorage: ClientBaseStorage {
     /// traits.rs:243
@@ -155,6 +160,13 @@ pub trait ClientFolderStorage: ClientBaseStorage {
         ensures
             r matches Some(s) ==> predicate.ensures((&s,), true) && self.summ().contains(*s),
             r is None ==> forall|i: int| 0 <= i < self.summ().len() ==> predicate.ensures((&&#[trigger] self.summ()[i],), false);
+    /// traits.rs:411 `remove_folder_entry`: closes the folder if it is the open one,
+    /// `self.folders_mut().remove(folder_id)`, `self.remove_summary(folder_id, Internal)`, `Ok(())`
+    fn remove_folder_entry(&mut self, folder_id: &VaultId, _t: Internal) -> (r: ClResult<()>)
+        ensures
+            r is Ok, final(self).idx() == old(self).idx(), final(self).stored() == old(self).stored(),
+            final(self).fmap() == old(self).fmap().remove(folder_id@),
+            forall|s: Summary| #[trigger] final(self).summ().contains(s) ==> old(self).summ().contains(s) && s.sid() != folder_id@;
     /// traits.rs:348 `create_folder_entry(vault, reset_events, creation_time, Internal)`:
     /// `new_folder(&vault)` opens the folder persisted under `vault.id()` (file system:
     /// `Folder::from_path(vault_path(id))` decodes the vault FILE; database: `Folder::new` loads
@@ -178,6 +190,9 @@ pub trait ClientVaultStorage: ClientBaseStorage {
         ensures
             final(self).fmap() == old(self).fmap(), final(self).idx() == old(self).idx(), final(self).summ() == old(self).summ(),
             r is Ok ==> final(self).stored() == old(self).stored().insert(vault_id(vault@), vault@);
+    /// traits.rs:194: deletes the persisted vault (and its event log) of the folder
+    fn remove_vault(&mut self, folder_id: &VaultId, _t: Internal) -> (r: ClResult<()>)
+        ensures final(self).fmap() == old(self).fmap(), final(self).idx() == old(self).idx(), final(self).summ() == old(self).summ();
     /// traits.rs:212
     fn summaries_mut(&mut self, _t: Internal) -> (r: &mut Vec<Summary>)
         ensures r@ == old(self).summ(), final(self).summ() == final(r)@,
@@ -266,3 +281,70 @@ pub fn vfind_mut<'a, F: Fn(&Summary) -> bool>(v: &'a mut Vec<Summary>, p: F) -> 
         r is None ==> final(v)@ == old(v)@ && forall|i: int| 0 <= i < old(v)@.len() ==> p.ensures((&#[trigger] old(v)@[i],), false),
         r matches Some(e) ==> exists|i: int| 0 <= i < old(v)@.len() && #[trigger] old(v)@[i] == *e && p.ensures((&old(v)@[i],), true) && final(v)@ == old(v)@.update(i, *final(e)),
 { unimplemented!() }
+
+// ---- account level plumbing used by delete_folder / import_folder ------------------------------
+/// `sos_core::AccountId` (crates/core/src/account.rs:14): 20 bytes
+#[derive(Clone, Copy)]
+pub struct AccountId(pub [u8; 20]);
+/// `sos_core::events::FileEvent` — opaque here
+#[verifier::external_body]
+pub struct FileEvent { _p: () }
+/// `sos_login::Identity` (crates/login/src/identity.rs): the signed-in user with the folder
+/// passwords; it holds no folder of the storage and not the search index
+#[verifier::external_body]
+pub struct Identity { _p: () }
+/// `sos_login::Error` — opaque
+#[derive(Debug)]
+pub struct LoginError { pub _p: () }
+impl From<LoginError> for ClientError {
+    /// `#[from] sos_login::Error`
+    #[verifier::external_body]
+    fn from(_e: LoginError) -> ClientError { ClientError::Other }
+}
+impl Identity {
+    /// identity.rs:230 `remove_folder_password`
+    #[verifier::external_body]
+    pub fn remove_folder_password(&mut self, folder_id: &VaultId) -> (r: core::result::Result<(), LoginError>) { unimplemented!() }
+}
+impl ExternalFileManager {
+    /// file_manager.rs:116 `delete_folder_files`: removes the encrypted blobs of the folder
+    #[verifier::external_body]
+    pub fn delete_folder_files(&self, folder_id: &VaultId) -> (r: ClResult<Vec<FileEvent>>) { unimplemented!() }
+}
+/// `sos_backend::FileEventLog` / `AccountEventLog` — other logs of the account; no property of this unit talks about them
+#[verifier::external_body]
+pub struct FileEventLog { _p: () }
+impl FileEventLog {
+    #[verifier::external_body]
+    pub fn apply(&mut self, events: &[FileEvent]) -> (r: BkResult<()>) { unimplemented!() }
+}
+#[verifier::external_body]
+pub struct AccountEventLog { _p: () }
+impl AccountEventLog {
+    #[verifier::external_body]
+    pub fn apply(&mut self, events: &[AccountEvent]) -> (r: BkResult<()>) { unimplemented!() }
+}
+/// `sos_audit::AuditEvent` — opaque
+#[verifier::external_body]
+pub struct AuditEvent { _p: () }
+impl From<(&AccountId, &AccountEvent)> for AuditEvent {
+    /// crates/audit/src/event.rs:191
+    #[verifier::external_body]
+    fn from(value: (&AccountId, &AccountEvent)) -> AuditEvent { unimplemented!() }
+}
+impl vstd::std_specs::convert::FromSpecImpl<(&AccountId, &AccountEvent)> for AuditEvent {
+    open spec fn obeys_from_spec() -> bool { false }
+    open spec fn from_spec(v: (&AccountId, &AccountEvent)) -> AuditEvent { arbitrary() }
+}
+/// crates/backend/src/audit.rs:26 `append_audit_events`: hands the events to the audit providers
+#[verifier::external_body]
+pub fn append_audit_events(events: &[AuditEvent]) -> (r: BkResult<()>) { unimplemented!() }
+/// R12: `for x in $v.drain(..)` (`Vec::drain(..)`: yields every element in order and leaves the
+/// vector empty) is rewritten to `for x in it: vdrain(&mut $v)`
+#[verifier::external_body]
+pub fn vdrain<T>(v: &mut Vec<T>) -> (r: Vec<T>)
+    ensures r@ == old(v)@, final(v)@.len() == 0,
+{ unimplemented!() }
+/// `impl<T: Clone> ToOwned for [T]` (alloc/src/slice.rs): `to_owned` = `to_vec`, the same elements
+pub assume_specification<T: Clone> [<[T] as std::borrow::ToOwned>::to_owned] (s: &[T]) -> (r: Vec<T>)
+    ensures r@.len() == s@.len(), forall|i: int| 0 <= i < s@.len() ==> call_ensures(T::clone, (&s@[i],), #[trigger] r@[i]);
